@@ -10,17 +10,27 @@ def loom_suite(tier, seed):
            "VERIF_LOOM_PREEMPT": "3" if tier == "quick" else "5"}
     with V.Lock("cargo-loom"):
         rc, out = V.sh(["cargo", "test", "--release", "--offline", "--", "--test-threads", "4"], cwd=d, timeout=1500, env=env)
-    tests = re.findall(r"^test (\w+) \.\.\. (ok|FAILED)", out, re.M)
-    res = {"evaluations": len(tests), "distinct_nontrivial": len(tests), "violations": [], "broken": [], "samples": ["loom litmus %s: %s" % t for t in tests],
+    # libtest prints "test NAME ... " and the verdict possibly on a later line (panic output is interleaved): parse the summary
+    ok_tests = re.findall(r"^test (\w+) \.\.\. ok", out, re.M)
+    failed = []
+    fm = re.search(r"^failures:\n((?:    \w+\n)+)", out, re.M)
+    if fm:
+        failed = fm.group(1).split()
+    sm = re.search(r"test result: (\w+)\. (\d+) passed; (\d+) failed", out)
+    res = {"evaluations": len(ok_tests) + len(failed), "distinct_nontrivial": len(ok_tests) + len(failed), "violations": [], "broken": [],
+           "samples": ["loom litmus %s: ok" % t for t in ok_tests] + ["loom litmus %s: FAILED" % t for t in failed],
            "notes": ["loom preemption bound %s" % env["VERIF_LOOM_PREEMPT"]]}
-    if not tests:
-        res["broken"].append({"kind": "loom-build", "excerpt": out[-2500:]})
+    if rc != 0 and not failed:
+        # a litmus test that aborts the test process (panic while unwinding inside loom) leaves no summary: name it from the panicking thread
+        failed = sorted(set(re.findall(r"thread '(\w+)' \(\d+\) panicked", out)) - {"main"})
+    if not sm or (rc != 0 and not failed):
+        res["broken"].append({"kind": "loom-build-or-run", "excerpt": out[-2500:]})
         return res
-    for name, verdict in tests:
-        if verdict == "FAILED":
-            m = re.search(r"(Causality violation[^\n]*|assertion[^\n]*failed[^\n]*|panicked at[^\n]*\n[^\n]*)", out)
-            res["violations"].append({"what": "loom litmus %s on the real Smart<_, Arc>" % name, "observed": (m.group(1) if m else "test failed")[:300],
-                                      "expected": "no unordered conflicting access, freed exactly once", "replay": "cd harness-loom && RUSTFLAGS='--cfg loom --cfg hipstr_verif' cargo test --release %s" % name})
+    for name in failed:
+        m = re.search(r"(Causality violation[^\n]*|assertion[^\n]*failed[^\n]*|panicked at[^\n]*\n[^\n]*)", out)
+        res["violations"].append({"what": "loom litmus %s on the real Smart<_, Arc>" % name, "observed": (m.group(1) if m else "test failed")[:300],
+                                  "expected": "no unordered conflicting access, freed exactly once, no mutable access while shared",
+                                  "replay": "cd harness-loom && RUSTFLAGS='--cfg loom --cfg hipstr_verif' CARGO_TARGET_DIR=/verif/.cache/target-loom cargo test --release --offline %s" % name})
     return res
 
 SPEC = {
